@@ -80,7 +80,7 @@ fn plans(prop: &str, tier: &str) -> Vec<Plan> {
     let xcap = if quick { 30_000 } else { 300_000 };
     let mk = |label: &str, cfg: &Cfg, d: usize, m: usize, b: usize| -> Plan {
         // the largest default-answer box of a configuration also runs the operand-consuming opcodes one slot deeper
-        let o = Opts { max_depth: d, max_memo: m, dev_budget: b, ref_in_key: safe_only, xval_cap: xcap, fringe_consumers: b == 0 && m == 1 && d >= 3, ..Opts::default() };
+        let o = Opts { max_depth: d, max_memo: m, dev_budget: b, ref_in_key: safe_only, xval_cap: xcap, fringe_consumers: b == 0 && m == 1 && (d == 3 || (quick && d >= 3)), ..Opts::default() };
         Plan { label: format!("{label}/D{d}M{m}b{b}"), cfg: cfg.clone(), opts: o, scenario: vec![] }
     };
     if prop != "C10" {
